@@ -103,6 +103,7 @@ class Engine(object):
         self.decided = {}
         self.model = None
         ST.pending_defs = {}
+        ST.float_sentinels = {}
         self.pc_assump = []
         # split bits apply to the first branching decisions of the very first run; afterwards the queued prefixes
         # already contain them
